@@ -241,6 +241,7 @@ func membershipBurst(r *rand.Rand, st *ccStats, hid int) string {
 		h.line("tb obs %s sm=? gate=? rel=?", tableObs(s))
 		return 1
 	}
+	h.line("tb burst-begin")
 	for _, s := range snaps {
 		if playersKey(s) == playersKey(prev) {
 			// no membership change: a top-up, or a notification without effect (e.g. the stale auto-join completion's PlayerJoin)
